@@ -1,12 +1,13 @@
 #!/bin/bash
-# evaluation pass 4: the wave-3 changes that the first evaluation missed, after strengthening
+# evaluation pass 5: third batch of seeded changes (C09 C16 C18 C20 C22 C27 C33 C34)
 cd /verif
 run() { tools/run_seeded.sh "$@"; }
-run C03-vsplit-stability-guard-last-pos C03
-run C35-write-u64-keeps-stale-mask C35
-run C15-read-before-assign-not-per-bit C15
-run C13-anchored-column-bytes-not-chars C13 C28
-run C06-sv-member-dedup-by-leaf-name C06
-run C24-mixin-interface-resolve-order C24
-run C07-on-remove-keeps-document-map-entry C07
+run C20-dqff-fold-skips-ff-d-pin C20 C19
+run C22-unsigned-keyword-translated-as-signed C22
+run C09-block-comment-regex-double-star-close C09
+run C16-ternary-branches-not-checked-against-each-other C16
+run C18-wide-mul-zero-word-skips-carry C18 C02
+run C27-check-mode-skips-dependency-outputs C27
+run C33-notready-fallback-single-comb-pass C33
+run C34-dut-reuse-nested-derived-clock-not-relocated C34 C34b
 echo ALLDONE
